@@ -645,6 +645,9 @@ func (P *Program) describeAssumption(a string) string {
 	if strings.HasPrefix(a, "CLOSURE-SPEC:") {
 		return "note (not an assumption): closure " + strings.TrimPrefix(a, "CLOSURE-SPEC:") + " is summarised by its own verified contract at the use site"
 	}
+	if strings.HasPrefix(a, "A-RELY:") {
+		return "A-RELY: before " + strings.TrimPrefix(a, "A-RELY:") + " is applied at a call site, the cells its contract lists under `interferes` take arbitrary values constrained by its `rely` clauses (another goroutine may have changed them); the rely clauses themselves are assumed, the guarantee side (that the other goroutine respects them) is not checked"
+	}
 	if strings.HasPrefix(a, "PARAM-RENAMED:") {
 		return "note (not an assumption): a parameter renamed since the baseline is bound to its old name in the contract of " + strings.TrimPrefix(a, "PARAM-RENAMED:")
 	}
